@@ -205,6 +205,132 @@ func c49MatchesSource(c c49Chain, conn c49Conn) bool {
 	return true
 }
 
+// c49PrefixKey is the identity of a prefix after masking (what makes two
+// prefix_ranges "the same destination prefix").
+func (p c49Prefix) key() string {
+	raw := c49IP(p.Addr).To4()
+	if raw == nil {
+		raw = c49IP(p.Addr).To16()
+	}
+	m := append(net.IP(nil), raw...)
+	for i := p.Bits; i < len(m)*8; i++ {
+		m[i/8] &^= 1 << (7 - i%8)
+	}
+	return fmt.Sprintf("%s/%d", m, p.Bits)
+}
+
+// c49SpecificResult is the reference outcome for a listener bound to a specific
+// address.  grpc-go documents that destination prefixes are not considered there
+// (every chain proceeds past stage 1); all later stages are specified as usual:
+// transport protocol (raw_buffer beats "" among chains of the same destination
+// prefix, which is how validated configurations are built), source type,
+// source prefix, source port, default chain last.
+//
+// Because destination prefixes were not used to separate chains, chains that
+// differ only in their destination prefix reach the source-prefix stage together;
+// grpc-go documents that such configurations are NOT rejected at validation and
+// that lookup then fails with "multiple matching filter chains".  Groups counts
+// the distinct destination prefixes among the survivors of the source-prefix
+// stage: Groups > 1 with several different chains is such a documented tie.
+type c49SpecificResult struct {
+	Groups    int   // distinct destination prefixes among survivors of the source-prefix stage
+	AtPrefix  []int // distinct chains surviving the source-prefix stage
+	Survivors []int // distinct chains surviving all stages
+}
+
+func c49RefSpecific(chains []c49Chain, conn c49Conn) c49SpecificResult {
+	dst, src := c49IP(conn.Dst), c49IP(conn.Src)
+	type pair struct {
+		c int
+		d string
+	}
+	var ps []pair
+	rawBuffer := map[string]bool{}
+	for i, c := range chains {
+		if !c.supported() {
+			continue
+		}
+		keys := []string{"-"}
+		if len(c.DstPrefixes) > 0 {
+			keys = nil
+			for _, p := range c.DstPrefixes {
+				keys = append(keys, p.key())
+			}
+		}
+		for _, k := range keys {
+			ps = append(ps, pair{i, k})
+			if c.Transport == "raw_buffer" {
+				rawBuffer[k] = true
+			}
+		}
+	}
+	keepMax := func(in []pair, score func(pair) int) []pair {
+		max := -2
+		for _, p := range in {
+			if v := score(p); v > max {
+				max = v
+			}
+		}
+		var out []pair
+		for _, p := range in {
+			if v := score(p); v == max && v > -2 {
+				out = append(out, p)
+			}
+		}
+		return out
+	}
+	ps = keepMax(ps, func(p pair) int { // transport protocol, per destination prefix
+		if rawBuffer[p.d] && chains[p.c].Transport == "" {
+			return -2
+		}
+		return 0
+	})
+	connType := "EXTERNAL"
+	if dst.Equal(src) || src.IsLoopback() {
+		connType = "SAME_IP_OR_LOOPBACK"
+	}
+	ps = keepMax(ps, func(p pair) int {
+		switch chains[p.c].SrcType {
+		case connType:
+			return 1
+		case "ANY":
+			return 0
+		}
+		return -2
+	})
+	ps = keepMax(ps, func(p pair) int { return c49BestPrefix(chains[p.c].SrcPrefixes, src) })
+	distinct := func(in []pair) []int {
+		seen := map[int]bool{}
+		var out []int
+		for _, p := range in {
+			if !seen[p.c] {
+				seen[p.c] = true
+				out = append(out, p.c)
+			}
+		}
+		return out
+	}
+	var res c49SpecificResult
+	groups := map[string]bool{}
+	for _, p := range ps {
+		groups[p.d] = true
+	}
+	res.Groups, res.AtPrefix = len(groups), distinct(ps)
+	ps = keepMax(ps, func(p pair) int {
+		if len(chains[p.c].SrcPorts) == 0 {
+			return 0
+		}
+		for _, port := range chains[p.c].SrcPorts {
+			if int(port) == conn.SrcPort {
+				return 1
+			}
+		}
+		return -2
+	})
+	res.Survivors = distinct(ps)
+	return res
+}
+
 // ---------------------------------------------------------------- proto construction
 
 func c49Any(m proto.Message) *anypb.Any {
@@ -568,27 +694,88 @@ func TestVerifC49(t *testing.T) {
 			r.Nontrivial("win/" + s)
 		}
 
-		// listener bound to a specific address: destination prefixes are documented
-		// as not considered; judge safety only (the chosen chain admits the connection).
+		// listener bound to a specific address: destination prefixes are documented as
+		// not considered; every later stage is judged exactly (see c49RefSpecific).
 		fcm2 := newFilterChainManager(&upd.TCPListener.FilterChains, &upd.TCPListener.DefaultFilterChain)
-		for k := 0; k < 40 && k < len(conns); k++ {
-			c := conns[rng.Intn(len(conns))]
+		for _, c := range conns {
 			got, lerr := c49Lookup(fcm2, c, false)
-			r.Count("lookups_specific_address_listener(safety only)", 1)
-			if lerr != nil || got == "rc-default" {
-				continue
+			if lerr != nil {
+				got = "error"
 			}
-			okc := false
-			for _, ch := range chains {
-				if ch.Name == got && c49MatchesSource(ch, c) {
-					okc = true
+			ref := c49RefSpecific(chains, c)
+			cc := base
+			cc.Wildcard, cc.Conn, cc.Got = false, c, got
+			if lerr != nil {
+				cc.Got = "error: " + lerr.Error()
+			}
+			// safety, always: a chosen chain admits the connection
+			if got != "error" && got != "rc-default" {
+				okc := false
+				for _, ch := range chains {
+					if ch.Name == got && c49MatchesSource(ch, c) {
+						okc = true
+					}
+				}
+				if !okc {
+					r.Violation("chain-does-not-admit-connection", fam, i, cc, "lookup on a specific-address listener (remote %s:%d, local %s) chose %s whose source criteria do not admit the connection; chains %+v", c.Src, c.SrcPort, c.Dst, got, chains)
+					break
 				}
 			}
-			if !okc {
-				cc := base
-				cc.Wildcard, cc.Conn, cc.Got = false, c, got
-				r.Violation("chain-does-not-admit-connection", fam, i, cc, "lookup on a specific-address listener (remote %s:%d, local %s) chose %s whose source criteria do not admit the connection; chains %+v", c.Src, c.SrcPort, c.Dst, got, chains)
-				break
+			want := "error"
+			switch {
+			case len(ref.Survivors) == 1:
+				want = chains[ref.Survivors[0]].Name
+			case len(ref.Survivors) == 0 && withDefault:
+				want = "rc-default"
+			}
+			cc.Want = want
+			switch {
+			case ref.Groups > 1 && len(ref.AtPrefix) > 1:
+				// documented: chains separated only by their destination prefix are not
+				// pre-validated for specific-address listeners; lookup may fail or pick one of them
+				r.Count("lookups_specific_address_documented_tie(error or any tied chain accepted)", 1)
+				okc := got == "error"
+				for _, k := range ref.AtPrefix {
+					okc = okc || chains[k].Name == got
+				}
+				if !okc {
+					cc.Ambiguity = c49Names(chains, ref.AtPrefix)
+					r.Violation("specific-address-tie-resolved-outside-tied-chains", fam, i, cc, "specific-address listener: chains %v tie at the source-prefix stage for remote %s:%d local %s, lookup returned %s; chains %+v",
+						c49Names(chains, ref.AtPrefix), c.Src, c.SrcPort, c.Dst, cc.Got, chains)
+				}
+				r.Nontrivial("specific/documented-tie")
+				continue
+			case len(ref.Survivors) > 1:
+				// two chains of one destination prefix with identical source criteria: only
+				// reachable when validation missed a tie no wildcard probe could reach
+				r.Count("lookups_specific_address_unvalidated_duplicate_unjudged", 1)
+				continue
+			}
+			r.Count("lookups_specific_address_listener_judged_exactly", 1)
+			if got != want {
+				key := "specific-address-wrong-filter-chain"
+				switch {
+				case ref.Groups > 1 && got == "error":
+					// one chain listing several destination prefixes competes with itself
+					key = "specific-address-chain-with-several-destination-prefixes-ties-with-itself"
+				case want == "rc-default" && got == "error":
+					key = "specific-address-default-chain-not-used"
+				case want == "rc-default" || want == "error":
+					key = "specific-address-chain-selected-although-none-matches"
+				case got == "rc-default" || got == "error":
+					key = "specific-address-matching-chain-not-selected"
+				}
+				if r.Violation(key, fam, i, cc, "specific-address listener: lookup(local %s, remote %s:%d) = %s, reference (destination stage skipped, then transport > source type > source prefix > source port) = %s; chains %+v default=%v",
+					c.Dst, c.Src, c.SrcPort, cc.Got, want, chains, withDefault) {
+					break // one report per listener; a known finding does not stop the judging of the other probes
+				}
+				continue
+			}
+			if len(ref.Survivors) == 1 {
+				w := chains[ref.Survivors[0]]
+				r.Nontrivial(fmt.Sprintf("specific/st%s/src%d/port%v/groups%d", w.SrcType[:1], c49BestPrefix(w.SrcPrefixes, c49IP(c.Src)), len(w.SrcPorts) > 0, ref.Groups))
+			} else {
+				r.Nontrivial("specific/fallback/" + want)
 			}
 		}
 		if i < 2 {
@@ -600,11 +787,13 @@ func TestVerifC49(t *testing.T) {
 		Level: "exploration",
 		Rule: "PRNG listeners: 1-6 filter chains with 0-2 destination and source prefixes (v4/v6 pools incl. unmasked, /0, /32, /128), source type, 0-2 source ports, raw_buffer/unsupported transport protocol, dropped criteria (destination_port, server_names, ALPN), a third with a near-duplicate chain, optional default chain -> real LDS decoder; " +
 			"probe connections = cross product of (first, inner, last address of every configured prefix + fixed v4/v6/loopback addresses) for local and remote x 4 source ports (hundreds to thousands of lookups per listener); " +
-			"distinct = winning chain's (destination prefix length, transport, source type, source prefix length, port specificity) or fallback kind, and rejected-with-tie per chain count",
+			"every probe connection is looked up twice: listener bound to the wildcard address and to a specific address; " +
+			"distinct = winning chain's (destination prefix length, transport, source type, source prefix length, port specificity) or fallback kind, rejected-with-tie per chain count, and for specific-address lookups (source type, source prefix length, port specificity, #destination prefixes reaching the source-prefix stage)",
 		Assumptions: []string{
 			"reference = Envoy FilterChainMatch / gRFC A36 most-specific-match over the proto; a configuration is ambiguous iff some probe connection leaves two chains after all stages",
 			"rejection of a configuration in which no probe connection finds a tie (e.g. tie shadowed by a more specific chain, same prefix listed twice in one chain) is counted, not judged",
-			"addresses are unmapped exactly as listenerWrapper.Accept does before lookup; listeners bound to a specific address are judged for safety only (documented: destination prefixes not considered there)",
+			"addresses are unmapped exactly as listenerWrapper.Accept does before lookup",
+			"listeners bound to a specific address: grpc-go documents that destination prefixes are not considered; the reference skips only that stage and judges transport protocol (per destination prefix), source type, source prefix, source port and the default fallback exactly; chains separated only by their destination prefix are documented as not pre-validated there, so for such ties an error or any tied chain is accepted",
 		},
 		Floor: 40,
 	})
